@@ -121,6 +121,34 @@ func runImgSym(sc M) {
 			bad = append(bad, "verify-after-foreign-entry: a valid signature behind another signature entry is not found ("+r2+")")
 		}
 	}
+	// one parsed image verified against several certificates in turn: every verdict must be the one a fresh parse gives
+	// (nothing learnt while verifying against one certificate may carry over to another)
+	{
+		freshV := map[string]string{}
+		for _, cn := range []string{"A", "At", "B"} {
+			cert = certByName(cn)
+			freshV[cn] = verify("fresh/"+cn, file)
+			delete(results, "fresh/"+cn)
+		}
+		cert = certByName(str(sc, "cert"))
+		for _, order := range [][]string{{"A", "At", "B", "A"}, {"At", "A", "B"}, {"B", "At", "A", "At"}} {
+			var p *authenticode.PECOFFBinary
+			guard(func() error { p, _ = authenticode.Parse(bytes.NewReader(file)); return nil })
+			if p == nil {
+				break
+			}
+			for k, cn := range order {
+				var ok bool
+				var err error
+				callStart(id, "shared-verify", nil)
+				o, _ := guard(func() error { ok, err = p.Verify(certByName(cn)); return nil })
+				if got := verdict(ok, err, o); (got == "true") != (freshV[cn] == "true") {
+					bad = append(bad, fmt.Sprintf("shared: on one parsed image the verdict depends on earlier verifications: %v step %d (%s) gives %s, a fresh parse gives %s", order, k+1, cn, got, freshV[cn]))
+					break
+				}
+			}
+		}
+	}
 	// bytes appended behind the certificate table are part of the file being verified but of no signature
 	if r == "true" {
 		for _, extra := range []int{8, 64, 3} {
